@@ -405,6 +405,34 @@ fn child_run(opts: &Opts) -> i32 {
         inputs.push((format!("cyclic{k}"), scratch.join("y.zy"), format!("begin let unwrap = fn {wrapped} => x that let twice = fn y => unwrap (unwrap y) that ret () end")));
         inputs.push((format!("cyclic{k}"), scratch.join("y.zy"), format!("fix f => fn x => f {wrapped}")));
     }
+    // every one-character and one-escape spelling of a character and a string literal (printable
+    // ASCII and a few others), closed and unclosed, in three contexts: literal decoding is a
+    // finite table and is covered whole
+    {
+        let mut bodies: Vec<String> = Vec::new();
+        for c in (0x20u8..0x7f).map(|b| b as char).chain(['\t', '\n', '\u{e9}', '\u{1F642}', '\u{0}']) {
+            bodies.push(format!("{c}"));
+            bodies.push(format!("\\{c}"));
+            bodies.push(format!("\\{c}{c}"));
+            bodies.push(format!("a\\{c}"));
+        }
+        bodies.push(String::new());
+        bodies.push("\\".into());
+        bodies.push("\\\\\\".into());
+        bodies.push("\\u{41}".into());
+        bodies.push("\\x41".into());
+        for (k, body) in bodies.iter().enumerate() {
+            for (q, close) in [('\'', true), ('"', true), ('\'', false), ('"', false)] {
+                let lit = if close { format!("{q}{body}{q}") } else { format!("{q}{body}") };
+                let text = match k % 3 {
+                    | 0 => lit,
+                    | 1 => format!("let x = {lit} in x"),
+                    | _ => format!("ret {lit}\n"),
+                };
+                inputs.push(("literal".into(), scratch.join("l.zy"), text));
+            }
+        }
+    }
     for i in 0..n {
         match i % 5 {
             | 4 => {
